@@ -167,12 +167,28 @@ package modeling
 // The frequency is usable and the clock leaves two periods of headroom below 2^64 (tick times do not wrap).
 //@ pred tsWF(t) = t != nil && t.engine != nil && timing.validFreq(t.freq) && idGenOK() && 0 <= now && now + 2 * timing.period(t.freq) < TWO64W
 
-// Scheduler invariant (holds between any two operations, also right after the dispatcher took a tick out):
+// ran(t): the recorded tick (at nextTickTime) has already been dispatched (Handle marks it with markTickRun).
+//@ pred ran(t) = t.hasRunTick && t.lastRunTickTime == t.nextTickTime
+// Parts of the scheduler invariant that hold at every point, also between the dispatch of a tick and markTickRun:
 //  - counts are 0 or 1: no instant carries two ticks of this handler (C12 "at most once per instant");
 //  - nothing is pending before the first request, and nothing beyond the most recent tick time;
-//  - a recorded tick time in the FUTURE is really pending (the guard may rely on it) and is at most the next edge.
-// NOT part of it: "a recorded tick time equal to now is pending" -- false once that tick has been dispatched.
-//@ pred tsInv(t) = countsOK(t.handlerID) && (forall u int :: sched[t.handlerID][u] <= 1) && (!t.hasScheduledTick ==> (forall u int :: sched[t.handlerID][u] == 0)) && (t.hasScheduledTick ==> (forall u int :: u > int(t.nextTickTime) ==> sched[t.handlerID][u] == 0)) && (t.hasScheduledTick && int(t.nextTickTime) > now ==> sched[t.handlerID][t.nextTickTime] >= 1) && (t.hasScheduledTick ==> int(t.nextTickTime) <= nextEdge(t.freq, now))
+//  - the recorded tick time is at most the next edge; a tick that has run was scheduled (<= nextTickTime) and is not
+//    in the future.
+//@ pred tsBase(t) = countsOK(t.handlerID) && (forall u int :: sched[t.handlerID][u] <= 1) && (!t.hasScheduledTick ==> (forall u int :: sched[t.handlerID][u] == 0)) && (t.hasScheduledTick ==> (forall u int :: u > int(t.nextTickTime) ==> sched[t.handlerID][u] == 0)) && (t.hasScheduledTick ==> int(t.nextTickTime) <= nextEdge(t.freq, now)) && (t.hasRunTick ==> t.hasScheduledTick && t.lastRunTickTime <= t.nextTickTime && int(t.lastRunTickTime) <= now)
+// Scheduler invariant between any two operations: a recorded tick time that is not in the past IS pending unless that
+// very tick has run, in which case it is NOT pending (the dispatcher took it out).
+//@ pred tsInv(t) = tsBase(t) && (t.hasScheduledTick && int(t.nextTickTime) >= now && !ran(t) ==> sched[t.handlerID][t.nextTickTime] >= 1) && (ran(t) ==> sched[t.handlerID][t.nextTickTime] == 0)
+// State in which Handle is entered: the dispatcher has just taken this scheduler's tick of the current instant out
+// of the queue (it was scheduled, so now <= nextTickTime; counts were <= 1, so none is left at now) and the run is
+// not yet marked. A later recorded tick is pending.
+//@ pred tsInvDispatched(t) = tsBase(t) && t.hasScheduledTick && now <= int(t.nextTickTime) && sched[t.handlerID][now] == 0 && (int(t.nextTickTime) > now ==> sched[t.handlerID][t.nextTickTime] >= 1)
+
+//@ fn (*TickScheduler).markTickRun
+//@   property C12 C09
+//@   requires t != nil
+//@   label C12.mark
+//@   ensures t.lastRunTickTime == time && t.hasRunTick
+//@   assigns t.lastRunTickTime, t.hasRunTick
 
 //@ fn (*TickScheduler).CurrentTime
 //@   property C12 C09
@@ -192,7 +208,9 @@ package modeling
 //@   label C12.lemma.order
 //@   ensures q2 * p <= q3 * p
 
-//@ pred tnGuard(t) = t.hasScheduledTick && int(t.nextTickTime) >= now
+// TickNow: the recorded tick is still pending and serves the request / the tick of this instant has already run.
+//@ pred tnKeep(t) = t.hasScheduledTick && int(t.nextTickTime) >= now && !ran(t)
+//@ pred tnAfterRun(t) = t.hasScheduledTick && int(t.nextTickTime) >= now && ran(t)
 //@ pred tlGuard(t) = t.hasScheduledTick && int(t.nextTickTime) >= nextEdge(t.freq, now)
 
 //@ fn (*TickScheduler).TickNow
@@ -203,16 +221,15 @@ package modeling
 // C09, from the property statement: after TickNow a tick is pending at or after the current instant.
 //@   label C09.ticknow.pending
 //@   ensures sched[t.handlerID][w] >= 1 && w >= now
-// What the code does guarantee: the same EXCEPT when the recorded tick time is the current instant and that tick has
-// already been dispatched (guard passes, nothing is scheduled, nothing is pending): the lost-wakeup case.
-//@   label C09.ticknow.pending.unless.tick.of.now.dispatched
-//@   ensures !(old(t.hasScheduledTick) && int(old(t.nextTickTime)) == now && old(sched)[t.handlerID][now] == 0) ==> sched[t.handlerID][w] >= 1 && w >= now
 //@   label C12.ticknow.dedup
-//@   ensures old(tnGuard(t)) ==> sched == old(sched) && t.nextTickTime == old(t.nextTickTime) && t.hasScheduledTick
+//@   ensures old(tnKeep(t)) ==> sched == old(sched) && t.nextTickTime == old(t.nextTickTime) && t.hasScheduledTick
 //@   label C12.ticknow.edge
-//@   ensures !old(tnGuard(t)) ==> sched == plusOne(old(sched), t.handlerID, thisEdge(t.freq, now)) && int(t.nextTickTime) == thisEdge(t.freq, now) && t.hasScheduledTick && (lastSecondary <==> t.secondary)
+//@   ensures !old(tnKeep(t)) && !old(tnAfterRun(t)) ==> sched == plusOne(old(sched), t.handlerID, thisEdge(t.freq, now)) && int(t.nextTickTime) == thisEdge(t.freq, now) && t.hasScheduledTick && (lastSecondary <==> t.secondary)
+// the tick of this instant has run: the component is not ticked a second time at this instant but at the next edge
+//@   label C12.ticknow.afterrun
+//@   ensures old(tnAfterRun(t)) ==> int(old(t.nextTickTime)) == now && sched == plusOne(old(sched), t.handlerID, nextEdge(t.freq, now)) && int(t.nextTickTime) == nextEdge(t.freq, now) && nextEdge(t.freq, now) > now && t.hasScheduledTick && (lastSecondary <==> t.secondary)
 //@   label C12.ticknow.increasing
-//@   ensures !old(tnGuard(t)) && old(t.hasScheduledTick) ==> t.nextTickTime > old(t.nextTickTime)
+//@   ensures !old(tnKeep(t)) && old(t.hasScheduledTick) ==> t.nextTickTime > old(t.nextTickTime)
 //@   label C12.ticknow.inv
 //@   ensures tsWF(t) && tsInv(t)
 //@   assigns sched, lastSecondary, t.nextTickTime, t.hasScheduledTick, issued, key("G|github.com/sarchlab/akita/v5/timing.idGenerator|"), key("G|github.com/sarchlab/akita/v5/timing.idGeneratorInstantiated|"), key("O|timing.sequentialIDGenerator|nextID"), key("O|timing.parallelIDGenerator|nextID")
@@ -238,19 +255,22 @@ package modeling
 //@ ghost var tickProgress bool
 
 // TRUSTED RELY (arbitrary user callback): Tick may change any other state and may call the component's own
-// TickNow/TickLater (whose contracts keep tsInv); it does not rewire the scheduler and cannot move the clock.
+// TickNow/TickLater (whose contracts keep tsInv and do not touch the last-run mark); it does not rewire the scheduler
+// and cannot move the clock.
 //@ iface modeling.Ticker.Tick
 //@   trusted
 //@   ensures tickCount == old(tickCount) + 1 && (tickProgress <==> result)
 //@   ensures now == old(now) && caller(c).TickScheduler == old(caller(c).TickScheduler) && caller(c).ticker == old(caller(c).ticker)
 //@   ensures caller(c).TickScheduler.freq == old(caller(c).TickScheduler.freq) && caller(c).TickScheduler.handlerID == old(caller(c).TickScheduler.handlerID) && caller(c).TickScheduler.engine == old(caller(c).TickScheduler.engine) && caller(c).TickScheduler.secondary == old(caller(c).TickScheduler.secondary)
-//@   ensures tsWF(caller(c).TickScheduler) && tsInv(caller(c).TickScheduler)
+//@   ensures tsWF(caller(c).TickScheduler) && tsInv(caller(c).TickScheduler) && caller(c).TickScheduler.hasRunTick == old(caller(c).TickScheduler.hasRunTick) && caller(c).TickScheduler.lastRunTickTime == old(caller(c).TickScheduler.lastRunTickTime)
 
 //@ pred tcWF(c) = c != nil && c.ticker != nil && tsWF(c.TickScheduler)
 
 //@ fn (*TickingComponent).Handle
 //@   property C12 C09
-//@   requires tcWF(c) && tsInv(c.TickScheduler) && now == timing.evTime(e)
+//@   requires tcWF(c) && tsInvDispatched(c.TickScheduler) && now == timing.evTime(e)
+//@   label C12.handle.marked
+//@   ensures c.TickScheduler.hasRunTick && int(c.TickScheduler.lastRunTickTime) == now
 //@   label C12.handle.once
 //@   ensures tickCount == old(tickCount) + 1
 //@   label C12.handle.progress
